@@ -1,5 +1,8 @@
 (* C07 — array length semantics: fixed, expression, null-terminated and to-end-of-stream. *)
+From Coq Require Import Lia.
 From VF Require Import Model.Reader Model.Writer Proofs.ReaderProps Proofs.ArrayProps Gen.GeneratedOk.
+From VF Require Import Model.Compiler.
+From VF Require Proofs.CompilerProps Proofs.CompilerStatic.
 Open Scope string_scope. Open Scope list_scope. Open Scope Z_scope.
 
 (* x[n] over generic elements (structures, unions, arrays, LEB128, unpacked integers, pointers): exactly n elements, each read where the
@@ -47,6 +50,21 @@ Proof. exact null_terminated_dump. Qed.
 Theorem null_terminated_chars_dump_appends_nul : forall c al wr bs pos, write_array c (TPrim PChar al) wr LNull (VBytes bs) pos = Ok (bs ++ [0]).
 Proof. exact null_terminated_dump_chars. Qed.
 
+(* the COMPILED reader has the same array semantics: for the structures C03's theorems cover - packed ones with counted, expression-counted,
+   null-terminated and multi-dimensional array members (read by the arrays' own readers, to which the theorems above apply) and fixed arrays of
+   scalars (read in blocks) - the generated statements return what the interpreted structure reader returns, member by member *)
+Theorem compiled_reader_has_the_interpreted_array_semantics : forall c fuel nm fs p,
+  Forall (fun f => f_off f = None /\ CompilerProps.cls' c fuel f) fs -> NoDup (map f_name fs) -> CompilerProps.bsize c fs <= 9223372036854775807 ->
+  compile_plan c false fs = Ok p ->
+  forall s pos ctx, 0 <= pos -> CompilerProps.req (read_compiled c fuel false fs s pos) (read_ty c fuel (TStruct nm fs false) s pos ctx).
+Proof. exact CompilerProps.compiled_is_interpreted. Qed.
+Theorem compiled_static_reader_has_the_interpreted_array_semantics : forall c fuel al nm fs p,
+  Forall (CompilerStatic.stcls c fuel al) fs -> NoDup (map f_name fs) -> (forall lay n, layout_struct c al fs = Ok lay -> l_size lay = Some n -> n <= 9223372036854775807) ->
+  compile_plan c al fs = Ok p ->
+  forall s pos ctx, 0 <= pos -> CompilerProps.req (read_compiled c fuel al fs s pos) (read_ty c fuel (TStruct nm fs al) s pos ctx).
+Proof. exact CompilerStatic.compiled_static_is_interpreted. Qed.
+
+Print Assumptions compiled_reader_has_the_interpreted_array_semantics.
 Print Assumptions counted_array_is_n_sequential_reads.
 Print Assumptions wrong_element_count_is_refused.
 Print Assumptions bulk_unpack_is_sequential.
@@ -68,3 +86,20 @@ Proof. vm_compute. reflexivity. Qed.
 Example ex_nested : read_top ex_cfg (TArr (TArr (TPrim (PLeb false) 1) (LFixed 2)) (LFixed 2)) [1; 130; 1; 3; 4] 0
   = Ok (VList [VList [VInt 1; VInt 130]; VList [VInt 3; VInt 4]], 5).
 Proof. vm_compute. reflexivity. Qed.
+
+(* non-vacuity of the compiled statement: struct { uint8 n; uint16 d[n]; char s[]; uint8 m[2][2]; uint32 f[3]; } is in the class, compiles, and reads *)
+Definition exc_fs := [Fld "n" false (TPrim (PInt 1 false true) 1) None None; Fld "d" false (TArr u16 (LExpr ["n"] false)) None None;
+                      Fld "s" false (TArr (TPrim PChar 1) LNull) None None; Fld "m" false (TArr (TArr (TPrim (PInt 1 false true) 1) (LFixed 2)) (LFixed 2)) None None;
+                      Fld "f" false (TArr (TPrim (PInt 4 false true) 4) (LFixed 3)) None None].
+Example exc_class : Forall (fun f => f_off f = None /\ CompilerProps.cls' ex_cfg 50 f) exc_fs /\ (exists p, compile_plan ex_cfg false exc_fs = Ok p) /\
+  exists v, read_compiled ex_cfg 50 false exc_fs [2; 1; 0; 2; 0; 97; 98; 0; 1; 2; 3; 4; 5; 0; 0; 0; 6; 0; 0; 0; 7; 0; 0; 0] 0 = Ok (v, 24) /\
+            read_ty ex_cfg 50 (TStruct "m" exc_fs false) [2; 1; 0; 2; 0; 97; 98; 0; 1; 2; 3; 4; 5; 0; 0; 0; 6; 0; 0; 0; 7; 0; 0; 0] 0 [] = Ok (v, 24).
+Proof.
+  split; [|split].
+  - repeat (apply Forall_cons; [split; [reflexivity|];
+        first [ left; split; [reflexivity|]; left; vm_compute; discriminate
+              | left; split; [reflexivity|]; right; split; [reflexivity|]; apply CompilerProps.sub_ok_of_shift; [vm_compute; reflexivity|intros k H; vm_compute in H; try discriminate; injection H as <-; lia] ]|]).
+    apply Forall_nil.
+  - eexists. vm_compute. reflexivity.
+  - eexists. split; vm_compute; reflexivity.
+Qed.
